@@ -80,7 +80,11 @@ def logic_unit(name):
     kinds = sentence_kinds(logic)
     if classical:
         kinds += [('self-identity', Predicate.Identity((a, a))),
-                  ('existence', Predicate.Existence(a))]
+                  ('existence', Predicate.Existence(a)),
+                  # identity between two constants that share the index / the subscript
+                  ('identity-same-index', Predicate.Identity((a, Constant(0, 1)))),
+                  ('identity-same-subscript', Predicate.Identity((Constant(1, 0), a))),
+                  ('self-identity-subscripted', Predicate.Identity((Constant(2, 3), Constant(2, 3))))]
     for kname, s in kinds:
         space = literal_space(logic, s)
         extra_sets = [()]
@@ -99,7 +103,7 @@ def logic_unit(name):
                         out['sets'] += 1
                         all_lits = list(zip(lits, ws)) + [(e, (0 if modal else None)) for e in extra]
                         # --- solver: satisfiable?
-                        I = Interp(S, 'spec', W=2 if modal else 1, K=1)
+                        I = Interp(S, 'spec', W=2 if modal else 1, K=2 if kname.startswith('identity-') else 1)
                         terms = []
                         for (sent, d), w in all_lits:
                             u = 0 if w is None else w
@@ -303,6 +307,8 @@ def replay(data):
 
     def base_value(s, v):
         if info['classical'] and type(s).__name__ == 'Predicated' and s.predicate.is_system:
+            if s.predicate.name == 'Identity' and s.params[0] != s.params[1]:
+                return v        # two constants may or may not denote the same thing
             return 'T'
         return v
     satisfiable = True
